@@ -231,6 +231,185 @@ type System interface {
 }
 
 // ---------------------------------------------------------------------------------------------
+// the family of secret pairs for "a second server with another secret"
+
+type SecretPair struct {
+	Name       string
+	A, B       []byte // B == nil: the second server uses its auto-generated default secret
+	Equivalent bool   // HMAC itself cannot tell the two apart (RFC 2104 zero-pads keys up to the block size)
+}
+
+func hmacNormal(k []byte) []byte {
+	if len(k) > 64 {
+		h := sha256.Sum256(k)
+		k = h[:]
+	}
+	return append(append([]byte{}, k...), make([]byte, 64-len(k))...)
+}
+
+var SecretLens = []int{1, 16, 31, 32, 33, 45, 48, 64, 65, 128}
+var SecretDiffs = []string{"first", "last", "byte31", "byte32", "byte33", "length-only", "trailing-zeros", "auto-default"}
+
+// SecretFamily: every length x every place where the second secret differs from the first.
+func SecretFamily(seed int64) []SecretPair {
+	rnd := rand.New(rand.NewSource(seed*7907 + 13))
+	var out []SecretPair
+	for _, n := range SecretLens {
+		a := make([]byte, n)
+		for i := range a {
+			a[i] = byte(1 + rnd.Intn(255)) // no zero bytes, so zero-padding never hides a difference by accident
+		}
+		for _, d := range SecretDiffs {
+			b := append([]byte{}, a...)
+			idx := -1
+			switch d {
+			case "first":
+				idx = 0
+			case "last":
+				idx = n - 1
+			case "byte31":
+				idx = 31
+			case "byte32":
+				idx = 32
+			case "byte33":
+				idx = 33
+			case "length-only":
+				b = append(b, byte(1+rnd.Intn(255)))
+			case "trailing-zeros":
+				b = append(b, make([]byte, 1+rnd.Intn(4))...)
+			case "auto-default":
+				b = nil
+			}
+			if idx >= n {
+				continue
+			}
+			if idx >= 0 {
+				b[idx] ^= byte(1 << rnd.Intn(8))
+			}
+			p := SecretPair{Name: fmt.Sprintf("len%d/%s", n, d), A: a, B: b}
+			p.Equivalent = b != nil && bytes.Equal(hmacNormal(a), hmacNormal(b))
+			out = append(out, p)
+		}
+	}
+	return out
+}
+
+// SecretMatrix: for every pair of the family and both directions, state minted by one server
+// (challenge blob with a valid signature, bearer token, the same state re-MAC'd under the other
+// secret) is presented to the other server, which has the same identity key and hostname: it must
+// never report a peer.
+func SecretMatrix(mk func(*World) System, res *vfh.Result, profile string) error {
+	if profile == "" {
+		profile = "ed25519"
+	}
+	keys, err := LoadKeys(profile, vfh.Seed())
+	if err != nil {
+		return err
+	}
+	host := "alpha.example.com"
+	var names []string
+	neq := 0
+	for _, p := range SecretFamily(vfh.Seed()) {
+		names = append(names, p.Name)
+		if p.Equivalent {
+			neq++
+		}
+		for dir := 0; dir < 2; dir++ {
+			w := &World{Keys: keys, HmacKey: map[string][]byte{"S": p.A, "S2": p.B}, SrvKey: map[string]string{"S": "kS", "S2": "kS"},
+				Host: map[string]string{"h1": host, "h2": "beta.example.com:8443"}, TokenTTL: time.Hour}
+			sys := mk(w)
+			from, to := "S", "S2"
+			if dir == 1 {
+				from, to = "S2", "S"
+			}
+			bad := func(cls, what string, o ServerObs, hdr string) {
+				if p.Equivalent {
+					res.Inc("hmac_equivalent_secret_accepts", 1)
+					return
+				}
+				res.AddMismatch(vfh.Mismatch{Class: cls, Walk: -1, What: fmt.Sprintf("secrets %s (%d and %d bytes): server %s reports %s for %s minted by server %s under the other secret",
+					p.Name, len(p.A), len(p.B), to, keys.nameOfID(o.Peer), what, from), Expected: "rejected", Got: map[string]any{"header": hdr, "secretA": B64(p.A), "secretB": B64(p.B)}})
+			}
+			m := sys.Server(from, host, "")
+			mp := ParseParams(m.WWW)
+			if mp["opaque"] == "" || mp["challenge-client"] == "" {
+				return fmt.Errorf("secret matrix %s: no challenge from %s: %+v", p.Name, from, m)
+			}
+			sig, err := keys.Priv["kA"].Sign(Payload("cli", []byte(mp["challenge-client"]), keys.PubB["kS"], host))
+			if err != nil {
+				return err
+			}
+			vhdr := func(opaque string) string {
+				return compose([]param{{k: "public-key", raw: keys.PubB["kA"]}, {k: "opaque", txt: opaque}, {k: "sig", raw: sig}, {k: "challenge-server", txt: aNonceStr}})
+			}
+			res.Inc("secret_matrix_requests", 1)
+			if o := sys.Server(to, host, vhdr(mp["opaque"])); o.Accepted {
+				bad("srv-accepts-foreign-opaque", "a challenge state", o, vhdr(mp["opaque"]))
+			}
+			own := sys.Server(from, host, vhdr(mp["opaque"]))
+			tok := ParseParams(own.Info)["bearer"]
+			if !own.Accepted || tok == "" {
+				res.AddMismatch(vfh.Mismatch{Class: "L2:secret-matrix-own-state-refused", Walk: -1, What: "server " + from + " refuses its own challenge state with secrets " + p.Name + ": " + own.Detail})
+				continue
+			}
+			bhdr := func(t string) string { return compose([]param{{k: "bearer", txt: t}}) }
+			res.Inc("secret_matrix_requests", 3)
+			if o := sys.Server(to, host, bhdr(tok)); o.Accepted {
+				bad("srv-accepts-foreign-token", "a bearer token", o, bhdr(tok))
+			}
+			if o := sys.Server(from, host, bhdr(tok)); !o.Accepted {
+				res.AddMismatch(vfh.Mismatch{Class: "L2:secret-matrix-own-state-refused", Walk: -1, What: "server " + from + " refuses its own token with secrets " + p.Name + ": " + o.Detail})
+			}
+			// the same states re-MAC'd under the other server's secret (and under prefixes of the verifier's
+			// own secret that an implementation might wrongly key with), presented to the minting server
+			remac := map[string][]byte{"other-secret": w.HmacKey[to]}
+			if own := w.HmacKey[from]; len(own) > 1 {
+				remac["own-secret-minus-last-byte"] = own[:len(own)-1]
+				if len(own) > 32 {
+					remac["own-secret-first-32"] = own[:32]
+				}
+				if len(own) > 64 {
+					remac["own-secret-first-64"] = own[:64]
+				}
+			}
+			for tag, k := range remac {
+				if k == nil || bytes.Equal(hmacNormal(k), hmacNormal(w.HmacKey[from])) {
+					continue
+				}
+				for kind, b64 := range map[string]string{"opaque": mp["opaque"], "bearer": tok} {
+					raw := unB64(b64)
+					if len(raw) < 32 {
+						continue
+					}
+					h := hmac.New(sha256.New, k)
+					h.Write(raw[32:])
+					forged := B64(append(h.Sum(nil), raw[32:]...))
+					hdr := bhdr(forged)
+					cls := "srv-accepts-altered-token"
+					if kind == "opaque" {
+						hdr, cls = vhdr(forged), "srv-accepts-altered-opaque"
+					}
+					res.Inc("secret_matrix_requests", 1)
+					if o := sys.Server(from, host, hdr); o.Accepted {
+						res.AddMismatch(vfh.Mismatch{Class: cls, Walk: -1, What: fmt.Sprintf("secrets %s: server %s accepts its own %s state re-MAC'd under %s", p.Name, from, kind, tag),
+							Expected: "rejected", Got: map[string]any{"header": hdr}})
+					}
+				}
+			}
+			if c, ok := sys.(interface{ Close() }); ok {
+				c.Close()
+			}
+		}
+	}
+	res.Set("secret_pair_family", names)
+	res.Set("secret_pairs", len(names))
+	res.Set("secret_pairs_hmac_equivalent", neq)
+	res.Set("secret_lengths", SecretLens)
+	res.Set("secret_differences", SecretDiffs)
+	return nil
+}
+
+// ---------------------------------------------------------------------------------------------
 // ledger
 
 type chalEntry struct {
@@ -935,6 +1114,32 @@ func (r *run) full(class string, n int) bool {
 	return true
 }
 
+// remacs: the unchanged state under a MAC keyed with another server's secret or a prefix of a secret.
+func (r *run) remacs(raw []byte) family {
+	if len(raw) < 32 {
+		return family{}
+	}
+	var ks [][]byte
+	for _, n := range []string{"S", "S2"} {
+		k := r.w.HmacKey[n]
+		if k == nil {
+			continue
+		}
+		ks = append(ks, k)
+		if len(k) > 32 {
+			ks = append(ks, k[:32])
+		}
+		if len(k) > 1 {
+			ks = append(ks, k[:len(k)-1])
+		}
+	}
+	return family{len(ks), func(i int) altered {
+		h := hmac.New(sha256.New, ks[i])
+		h.Write(raw[32:])
+		return altered{fmt.Sprintf("remac[%d]", i), append(h.Sum(nil), raw[32:]...)}
+	}}
+}
+
 // alterations of one decoded field for abstract alteration f: the whole family while the budget of
 // full sweeps for this class of edge lasts, a few random members afterwards.
 func (r *run) alterations(raw []byte, f string, bkind string) []altered {
@@ -945,7 +1150,7 @@ func (r *run) alterations(raw []byte, f string, bkind string) []altered {
 	var fam family
 	switch {
 	case f == "o.mac":
-		fam = flips(raw, 0, 32)
+		fam = cat(flips(raw, 0, 32), r.remacs(raw))
 	case strings.HasPrefix(f, "o.") && f != "o.trunc" && f != "o.ext":
 		fam = cat(r.semantic(raw, f), flips(raw, 32, len(raw)))
 	case f == "o.trunc" || f == "sig.trunc":
@@ -1503,6 +1708,15 @@ func Replay(mk func(*World) System, res *vfh.Result, opt Options) error {
 		return err
 	}
 	budget := map[string]int{}
+	var rot []SecretPair
+	for _, p := range SecretFamily(vfh.Seed()) {
+		if !p.Equivalent {
+			rot = append(rot, p)
+		}
+	}
+	used := map[string]int{}
+	nwalk := 0
+	defer func() { res.Set("secret_pairs_used_in_replay", len(used)) }()
 	defer debug.SetGCPercent(debug.SetGCPercent(400))
 	for _, f := range files {
 		fh, err := os.Open(f)
@@ -1527,11 +1741,11 @@ func Replay(mk func(*World) System, res *vfh.Result, opt Options) error {
 		conf := Conf{MaxT: int(cm["maxt"].(float64)), ChalTTL: int(cm["chalttl"].(float64)), TokTTL: int(cm["tokttl"].(float64)),
 			S2SameKey: cm["s2samekey"].(bool), Explicit: cm["explicit"].(bool), Name: filepath.Base(f)}
 		unit := ChallengeTTL / time.Duration(conf.ChalTTL)
-		w := &World{Keys: keys, HmacKey: map[string][]byte{"S": []byte("server-S-hmac-secret-0123456789abcdef"), "S2": []byte("server-S2-other-secret-fedcba9876543210")},
+		w0 := &World{Keys: keys,
 			SrvKey: map[string]string{"S": "kS", "S2": "kS2"}, Host: map[string]string{"h1": "alpha.example.com", "h2": "beta.example.com:8443"},
 			TokenTTL: unit * time.Duration(conf.TokTTL)}
 		if conf.S2SameKey {
-			w.SrvKey["S2"] = "kS"
+			w0.SrvKey["S2"] = "kS"
 		}
 		for nw := 0; sc.Scan(); nw++ {
 			if len(sc.Bytes()) == 0 {
@@ -1544,8 +1758,18 @@ func Replay(mk func(*World) System, res *vfh.Result, opt Options) error {
 			if err := json.Unmarshal(sc.Bytes(), &wk); err != nil {
 				return fmt.Errorf("%s: %v", f, err)
 			}
-			sys := mk(w)
-			r := &run{w: w, sys: sys, res: res, rnd: rand.New(rand.NewSource(vfh.Seed()*104729 + int64(wk.Walk))), conf: conf, unit: unit,
+			// the two servers' secrets: one pair of the family per walk (seeded rotation; "different" is all
+			// the model says about them)
+			pair := rot[(int(vfh.Seed())*31+nwalk)%len(rot)]
+			nwalk++
+			w := *w0
+			w.HmacKey = map[string][]byte{"S": pair.A, "S2": pair.B}
+			if (wk.Walk/len(rot))%2 == 1 && pair.B != nil {
+				w.HmacKey = map[string][]byte{"S": pair.B, "S2": pair.A}
+			}
+			used[pair.Name]++
+			sys := mk(&w)
+			r := &run{w: &w, sys: sys, res: res, rnd: rand.New(rand.NewSource(vfh.Seed()*104729 + int64(wk.Walk))), conf: conf, unit: unit,
 				file: filepath.Base(f), lite: opt.Lite, budget: budget, walk: wk.Walk}
 			r.reset()
 			for i, st := range wk.Steps {
